@@ -5,6 +5,7 @@ import CheetahModel.DriverBmadx
 import CheetahModel.DriverDual
 import CheetahModel.DriverDiag
 import CheetahModel.DriverSC
+import CheetahModel.DriverSer
 /-!
 # Line-protocol driver
 
@@ -31,6 +32,10 @@ def handle (line : String) : String :=
     match DrvLat.run rest with
     | some out => out
     | none => "ERR lat-parse"
+  | "ser" :: rest =>
+    match DrvSer.run rest with
+    | some out => out
+    | none => "ERR ser-parse"
   | op :: args =>
     match args.mapM parseF with
     | none => s!"ERR bad-arg {op}"
